@@ -123,6 +123,7 @@ int main()
     {
         if (line.empty())
             continue;
+        vh::case_alarm(120); // a hang is an observation (`abort:timeout`), not a blocked run
         auto f = vh::fields(line);
         int N = std::stoi(f["N"]);
         int D = std::stoi(f["D"]);
